@@ -80,7 +80,6 @@ package cdc
 //@   ensures [big-endian] result == be64(b)
 //@ func bucketSize
 //@   noheap
-//@   trusted
 //@ func setHighestKey
 //@   noheap
 //@   assert @uint64tob: [persists-the-given-index] arg0 == idx
